@@ -6,7 +6,11 @@ if [ -n "$(git status --porcelain)" ]; then echo "REPO-DIRTY: refusing to apply 
 if git apply --check "$P" 2>/dev/null; then git apply "$P"
 elif git apply --3way "$P" >/dev/null 2>&1 && [ -z "$(git diff --name-only --diff-filter=U)" ]; then :
 else git reset -q --hard HEAD; echo "PATCH-DOES-NOT-APPLY $P"; exit 8; fi
+# the evidence file written while the seed is applied describes the broken tree: keep it aside, restore the real one
+cp "/verif/evidence/$ID.json" "/verif/build/evidence_$ID.keep" 2>/dev/null
 cd /verif && ./check "$ID" "$T"; rc=$?
+cp "/verif/evidence/$ID.json" "/verif/build/evidence_$ID.seeded" 2>/dev/null
+[ -f "/verif/build/evidence_$ID.keep" ] && mv "/verif/build/evidence_$ID.keep" "/verif/evidence/$ID.json"
 cd /repo && git reset -q --hard HEAD
 echo "seed=$P property=$ID rc=$rc"
 exit $rc
